@@ -121,6 +121,10 @@ def remove_listing():
 
 
 def listing_modes(rng, k=3):
+    if k < 0:
+        # exactly -k listings drawn from {sorted, reversed, seeded permutation} (expensive hdf5 readers)
+        pool = [('sorted', 0), ('reversed', 0), ('perm', int(rng.integers(1, 2 ** 31)))]
+        return [pool[i] for i in rng.permutation(3)[:-k]]
     modes = [('sorted', 0), ('reversed', 0)]
     for _ in range(max(1, k - 2)):
         modes.append(('perm', int(rng.integers(1, 2 ** 31))))
@@ -206,7 +210,7 @@ def compare_table(ctx, tag, obs, exp, what, rtol=RTOL, also=None):
         if cause == 'numbers' and _same(np.sort(g), np.sort(e), rtol):
             cause = 'numbers-at-other-configurations'
         if cause == 'numbers' and also:
-            for lab, tab in also.items():
+            for lab, tab in (also() if callable(also) else also).items():
                 if n in tab and len(tab[n]) == len(g) and _same(g, _arr(tab[n]), rtol):
                     cause = 'numbers-of:' + lab
                     break
@@ -2554,13 +2558,405 @@ def case_many(ctx, rng, fmt, which=None):
         ctx.sample({'format': fmt, 'class': 'many ' + which, 'replicas': len(getattr(S, 'reps', [0]))})
 
 
+# ------------------------------------------------------------------------------------------------
+# the other Hadrons readers: DistillationContraction, ExternalLeg, Bilinear, Fourquark
+# (list-valued options in every order, every documented selector value, defaults after explicit calls)
+# ------------------------------------------------------------------------------------------------
+DIAGRAMS = ['direct', 'box', 'cross', 'triangle']
+
+
+def even_cfgs(rng, tier):
+    # many small hdf5 datasets per configuration: short chains keep the quick tier fast (thorough: up to 12)
+    n = int(rng.integers(6, 9)) if tier == 'quick' else int(rng.integers(5, 13))
+    c, kind = gen_cfgs(rng, n, kinds=('contig', 'strided'))
+    return c
+
+
+class DistilSet:
+    fmt = 'hadrons-distil'
+
+    def __init__(self, rng, tier):
+        self.ens = str(rng.choice(['ensD', 'ensD|r2']))
+        self.Nt = int(rng.integers(2, 5))
+        self.cfgs = even_cfgs(rng, tier)
+        gam = ['Gamma5', 'GammaX', 'GammaTGamma5', 'GammaZ']
+        self.stems = {'mesonA': ['%s_p000_n24_t0' % gam[int(rng.integers(4))], '%s_p100_n24_t0' % gam[int(rng.integers(4))]],
+                      'mesonB': ['Identity_p000_n24_t0', '%s_p010_n24_t0' % gam[int(rng.integers(4))]]}
+        if rng.random() < 0.3:
+            self.stems['mesonC'] = ['%s_p011_n16_t0' % gam[int(rng.integers(4))], 'Identity_p000_n16_t0']
+        n = len(self.cfgs) * len(self.stems) * 4 * self.Nt * self.Nt * 2
+        src = F.Distinct(rng, n + 8, -9.0, 9.0)
+        self.raw = {(st, c, dg): src.block(self.Nt, self.Nt) + 1j * src.block(self.Nt, self.Nt) for st in self.stems for c in self.cfgs for dg in DIAGRAMS}
+
+    def write(self, d):
+        for c in self.cfgs:
+            sub = os.path.join(d, 'data.%d' % c)
+            os.makedirs(sub)
+            for st, inputs in self.stems.items():
+                F.write_distillation_file(os.path.join(sub, '%s.%d.h5' % (st, c)), inputs, {dg: self.raw[(st, c, dg)] for dg in DIAGRAMS}, self.Nt)
+        with open(os.path.join(d, 'notes.txt'), 'w') as f:
+            f.write('x')
+
+    def ident(self, st):
+        return F.distillation_identifier(self.stems[st])
+
+    def field(self, st, dg):
+        return 'imag' if (dg == 'triangle' and 'Identity' not in self.ident(st)) else 'real'
+
+    def expect(self, st, dg, idl=None, field=None):
+        """-> list over t of {ens: {cfg: number}}"""
+        cl = self.cfgs if idl is None else [c for c in self.cfgs if c in set(idl)]
+        if idl is not None and set(idl) - set(self.cfgs):
+            return None
+        if len(cl) < 5:
+            return None
+        fld = field or self.field(st, dg)
+        cache = self.__dict__.setdefault('_cache', {})
+        vals = {}
+        for c in cl:
+            if (st, c, dg, fld) not in cache:
+                cache[(st, c, dg, fld)] = F.distillation_expect(self.raw[(st, c, dg)], fld)
+            vals[c] = cache[(st, c, dg, fld)]
+        return [{self.ens: {c: float(vals[c][t]) for c in cl}} for t in range(self.Nt)]
+
+    def digest(self):
+        return digest(self.fmt, self.Nt, self.cfgs, sorted(self.stems), self.raw[('mesonA', self.cfgs[0], 'direct')])
+
+
+def judge_distil(S, diagrams, idl=None):
+    def jf(c, tag, res, exp, w):
+        c.ev()
+        want = sorted(S.ident(st) for st in S.stems)
+        if not isinstance(res, dict) or sorted(res) != want:
+            c.violation(tag + ':identifiers', {'got': sorted(res) if isinstance(res, dict) else repr(type(res)), 'exp': want, 'what': w})
+            return False
+        ok = True
+        for st in S.stems:
+            entry = res[S.ident(st)]
+            c.ev()
+            if sorted(entry) != sorted(set(diagrams)):
+                c.violation(tag + ':diagrams-returned', {'got': sorted(entry), 'exp': sorted(set(diagrams)), 'what': w})
+                ok = False
+                continue
+            for dg in set(diagrams):
+                corr = entry[dg]
+                e = S.expect(st, dg, idl=idl)
+                c.ev()
+                if corr.T != S.Nt or corr.tag != S.ident(st):
+                    c.violation(tag + ':time-extent-or-tag', {'T': corr.T, 'tag': corr.tag, 'what': w})
+                    ok = False
+                    continue
+                for t in range(S.Nt):
+                    def also(t=t, st=st, dg=dg):
+                        a = {'other-part(real/imag)': S.expect(st, dg, idl=idl, field='imag' if S.field(st, dg) == 'real' else 'real')[t]}
+                        for d2 in DIAGRAMS:
+                            if d2 != dg:
+                                a['diagram-' + d2] = S.expect(st, d2, idl=idl)[t]
+                        for s2 in S.stems:
+                            if s2 != st:
+                                a['file-' + s2] = S.expect(s2, dg, idl=idl)[t]
+                        return a
+                    ok &= compare_table(c, tag, corr.content[t][0], e[t], dict(w, file=st, diagram=dg, t=t, position_in_list=list(diagrams).index(dg)), also=also)
+        return ok
+    return jf
+
+
+def case_distil(ctx, rng):
+    S = DistilSet(rng, ctx.tier)
+    fmt = S.fmt
+    hd = PE.input.hadrons
+    with tempfile.TemporaryDirectory(prefix='vmon_C17_', dir=TMPROOT) as d:
+        S.write(d)
+        ctx.count('file_sets')
+        ctx.cell('set', fmt)
+        returned = 0
+        base_what = {'Nt': S.Nt, 'cfgs': S.cfgs[:3] + ['...', S.cfgs[-1]], 'stems': sorted(S.stems)}
+
+        def go(sel, diagrams, idl=None, k=-1, must_raise=False, default=False):
+            nonlocal returned
+            exp = None if must_raise or (idl is not None and S.expect('mesonA', 'direct', idl=idl) is None) else True
+            dl = ['direct'] if default else list(diagrams)
+
+            def call():
+                kw = {} if default else {'diagrams': list(diagrams)}
+                if idl is not None:
+                    kw['idl'] = idl if isinstance(idl, range) else list(idl)
+                return hd.read_DistillationContraction_hd5(d, S.ens, **kw)
+            returned += run_sel(ctx, rng, fmt, sel, call, exp, judge_distil(S, dl, None if idl is None else list(idl)), dict(base_what, diagrams=dl, idl=None if idl is None else list(idl)[:6]), k=k)
+
+        # every diagram alone, the default, and ordered lists: every pair in both orders over the case, triangle first / in the middle / last
+        go('default', None, default=True, k=-2)
+        one = str(rng.choice(DIAGRAMS))
+        go('single', [one])
+        go('single-triangle', ['triangle'])
+        other = [x for x in DIAGRAMS if x != 'triangle']
+        x = str(rng.choice(other))
+        go('triangle-then-other', ['triangle', x], k=-2)
+        go('other-then-triangle', [x, 'triangle'])
+        perm = [DIAGRAMS[i] for i in rng.permutation(4)]
+        go('all-four-permuted', perm)
+        go('all-four-triangle-first', ['triangle'] + [other[i] for i in rng.permutation(3)])
+        y = [z for z in other if z != x]
+        go('triangle-in-the-middle', [x, 'triangle', y[int(rng.integers(len(y)))]])
+        sub = [DIAGRAMS[i] for i in rng.permutation(4)][:int(rng.integers(2, 4))]
+        go('ordered-subset', sub)
+        # the default again after explicit lists (mutable default argument) and the same list object twice
+        go('default-after-explicit', None, default=True)
+        lst = ['triangle', x]
+        for rep_ in (1, 2):
+            LIST.mode = 'sorted'
+            res, ok = lib_call(ctx, fmt + ':list-object-reused', base_what, lambda: hd.read_DistillationContraction_hd5(d, S.ens, diagrams=lst))
+            ctx.count('judged:%s:list-object-reused' % fmt)
+            if ok:
+                judge_distil(S, ['triangle', x])(ctx, fmt + ':list-object-reused', res, True, dict(base_what, call=rep_))
+        ctx.ev()
+        if lst != ['triangle', x]:
+            ctx.count('arg-modified-in-place:%s:diagrams' % fmt)
+        # idl selections
+        c = S.cfgs
+        stp = c[1] - c[0]
+        if len(c) >= 6:
+            i = int(rng.integers(0, len(c) - 4))
+            j = int(rng.integers(i + 4, len(c)))
+            go('idl-range', perm[:2], idl=range(c[i], c[j] + 1, stp))
+            pick = sorted(int(v) for v in rng.choice(c, size=int(rng.integers(5, len(c))), replace=False))
+            go('idl-list', ['triangle', x], idl=pick)
+        for bad in ['diagram-unknown', 'idl-missing-configuration', 'diagram-listed-twice']:
+            if bad == 'diagram-unknown':
+                go(bad, ['direct', 'pentagon'], must_raise=True)
+            elif bad == 'idl-missing-configuration':
+                go(bad, ['direct'], idl=list(c) + [c[-1] + stp * 3], must_raise=True)
+            else:
+                # the same diagram twice: an exception or the right numbers (undocumented) - never other numbers
+                LIST.mode = 'sorted'
+                ctx.count('judged:%s:%s' % (fmt, bad))
+                try:
+                    res = hd.read_DistillationContraction_hd5(d, S.ens, diagrams=['direct', 'direct'])
+                except Exception as e:
+                    if ctx.classify_exception(e)[0] != 'library':
+                        raise
+                    ctx.count('%s:diagram-listed-twice:raises' % fmt)
+                else:
+                    judge_distil(S, ['direct', 'direct'])(ctx, fmt + ':' + bad, res, True, base_what)
+        if returned:
+            ctx.nontrivial.add(S.digest())
+        ctx.sample({'format': fmt, 'Nt': S.Nt, 'files_per_configuration': sorted(S.stems), 'configurations': S.cfgs[:3] + ['...', S.cfgs[-1]], 'reads_returned': returned})
+
+
+NPR_KINDS = {'externalleg': 'ExternalLeg', 'bilinear': 'Bilinear', 'fourquark': 'FourQuarkFullyConnected'}
+
+
+class NprSet:
+    def __init__(self, rng, tier, kind):
+        self.kind = kind
+        self.fmt = 'hadrons-' + kind
+        self.group = NPR_KINDS[kind]
+        self.stem = str(rng.choice(['npr_run', 'mom_2_2_0_0', 'run7.npr']))
+        self.ens = str(rng.choice(['ensN', 'ensN|r1']))
+        self.cfgs = even_cfgs(rng, tier)
+        if len(self.cfgs) > 12:
+            self.cfgs = self.cfgs[:12]
+        self.p_in = [int(x) for x in rng.integers(-3, 4, size=4)]
+        self.p_out = [int(x) for x in rng.integers(-3, 4, size=4)]
+        if kind == 'fourquark':
+            self.shape = tuple(int(x) for x in rng.choice([1, 2], size=8, p=[0.7, 0.3]))
+            self.labels = F.fourquark_all_pairs()
+            self.labels = [self.labels[i] for i in rng.permutation(32)]
+        else:
+            self.shape = (int(rng.integers(1, 3)), int(rng.integers(1, 3)), int(rng.integers(1, 3)), int(rng.integers(1, 3)))
+            self.labels = [F.GAMMA16[i] for i in rng.permutation(16)] if kind == 'bilinear' else [None]
+        m = int(np.prod(self.shape))
+        src = F.Distinct(rng, 2 * m * len(self.labels) * len(self.cfgs) + 8, -9.0, 9.0)
+        self.vals = {c: {lab: (src.block(*self.shape) + 1j * src.block(*self.shape)) for lab in self.labels} for c in self.cfgs}
+
+    def write(self, d):
+        for c in self.cfgs:
+            ent = [self.vals[c][None]] if self.kind == 'externalleg' else [(lab, self.vals[c][lab]) for lab in self.labels]
+            F.write_npr_file(os.path.join(d, '%s.%d.h5' % (self.stem, c)), self.group, ent, self.p_in, self.p_out)
+        F.write_npr_file(os.path.join(d, '%s2.%d.h5' % (self.stem, self.cfgs[0])), 'ExternalLeg', [np.zeros(self.shape[:4] if self.kind != 'fourquark' else (1, 1, 1, 1))], self.p_in)
+
+    def cfgl(self, idl):
+        cl = self.cfgs if idl is None else [c for c in self.cfgs if c in set(idl)]
+        if idl is not None and set(idl) - set(self.cfgs):
+            return None
+        return cl if len(cl) >= 5 else None
+
+    def matrix(self, c, name):
+        """Stored complex array of configuration c for a result key."""
+        if self.kind == 'externalleg':
+            return self.vals[c][None]
+        if self.kind == 'bilinear':
+            return self.vals[c][name]
+        cache = self.__dict__.setdefault('_cache', {})
+        if (c, name) not in cache:
+            tot = 0
+            for a, b, sg in F.fourquark_pairs(name):
+                tot = tot + sg * self.vals[c][(a, b)]
+            cache[(c, name)] = tot
+        return cache[(c, name)]
+
+    def digest(self):
+        return digest(self.fmt, self.shape, self.cfgs, self.p_in, [self.vals[self.cfgs[0]][self.labels[0]]])
+
+
+def judge_npr(S, keys, idl=None):
+    def jm(c, tag, mat, name, cl, w):
+        c.ev()
+        if tuple(mat.shape) != tuple(S.shape):
+            c.violation(tag + ':shape', {'got': tuple(mat.shape), 'exp': S.shape, 'what': w})
+            return False
+        want_in = np.array(S.p_in, dtype=float)
+        ok = True
+        c.ev()
+        if mat.mom_in is None or not np.array_equal(mat.mom_in, want_in) or (S.kind != 'externalleg' and not np.array_equal(mat.mom_out, np.array(S.p_out, dtype=float))):
+            c.violation(tag + ':momenta', {'mom_in': repr(mat.mom_in), 'mom_out': repr(getattr(mat, 'mom_out', None)), 'exp': [S.p_in, S.p_out]})
+            ok = False
+        ms = {cc: S.matrix(cc, name) for cc in cl}
+
+        def others():
+            o = {}
+            if S.kind == 'fourquark':
+                for v2 in F.FOURQUARK_VERTICES:
+                    if v2 != name:
+                        o['vertex-' + v2] = {cc: S.matrix(cc, v2) for cc in cl}
+            elif S.kind == 'bilinear':
+                for g2 in S.labels:
+                    if g2 != name:
+                        o['gamma-' + g2] = {cc: S.matrix(cc, g2) for cc in cl}
+            return o
+        for index in np.ndindex(*S.shape):
+            re_ = {S.ens: {cc: float(ms[cc][index].real) for cc in cl}}
+            im_ = {S.ens: {cc: float(ms[cc][index].imag) for cc in cl}}
+
+            def also(part, index=index, re_=re_, im_=im_):
+                a = {'imaginary-part': im_} if part == 'real' else {'real-part': re_}
+                for lab, om in others().items():
+                    a[lab] = {S.ens: {cc: float(getattr(om[cc][index], part)) for cc in cl}}
+                return a
+            ok &= compare_table(c, tag, mat[index].real, re_, dict(w, key=str(name), index=list(index), part='real'), rtol=1e-12, also=lambda: also('real'))
+            ok &= compare_table(c, tag, mat[index].imag, im_, dict(w, key=str(name), index=list(index), part='imag'), rtol=1e-12, also=lambda: also('imag'))
+        return ok
+
+    def jf(c, tag, res, exp, w):
+        cl = S.cfgl(idl)
+        if S.kind == 'externalleg':
+            return jm(c, tag, res, None, cl, w)
+        c.ev()
+        if not isinstance(res, dict) or sorted(res) != sorted(set(keys)):
+            c.violation(tag + ':keys-returned', {'got': sorted(res) if isinstance(res, dict) else repr(type(res)), 'exp': sorted(set(keys)), 'what': w})
+            return False
+        ok = True
+        for name in sorted(set(keys)):
+            ok &= jm(c, tag, res[name], name, cl, w)
+        return ok
+    return jf
+
+
+def case_npr(ctx, rng, kind):
+    S = NprSet(rng, ctx.tier, kind)
+    fmt = S.fmt
+    hd = PE.input.hadrons
+    fn = {'externalleg': hd.read_ExternalLeg_hd5, 'bilinear': hd.read_Bilinear_hd5, 'fourquark': hd.read_Fourquark_hd5}[kind]
+    with tempfile.TemporaryDirectory(prefix='vmon_C17_', dir=TMPROOT) as d:
+        S.write(d)
+        ctx.count('file_sets')
+        ctx.cell('set', fmt)
+        returned = 0
+        base_what = {'shape': S.shape, 'cfgs': S.cfgs[:3] + ['...', S.cfgs[-1]], 'stem': S.stem}
+        allkeys = {'externalleg': [None], 'bilinear': list(S.labels), 'fourquark': ['VA', 'AV']}[kind]
+
+        def go(sel, keys=None, idl=None, k=-1, must_raise=False, default=True):
+            nonlocal returned
+            kk = allkeys if keys is None else keys
+            exp = None if must_raise or S.cfgl(idl) is None else True
+
+            def call():
+                kw = {}
+                if idl is not None:
+                    kw['idl'] = idl if isinstance(idl, range) else list(idl)
+                if kind == 'fourquark' and not default:
+                    kw['vertices'] = list(keys)
+                return fn(d, S.stem, S.ens, **kw)
+            returned += run_sel(ctx, rng, fmt, sel, call, exp, judge_npr(S, kk, None if idl is None else list(idl)),
+                                dict(base_what, keys=[str(x) for x in kk][:8], idl=None if idl is None else list(idl)[:6]), k=k)
+
+        go('all', k=-2)
+        c = S.cfgs
+        stp = c[1] - c[0]
+        if len(c) >= 6:
+            i = int(rng.integers(0, len(c) - 4))
+            j = int(rng.integers(i + 4, len(c)))
+            go('idl-range', idl=range(c[i], c[j] + 1, stp))
+            go('idl-list', idl=sorted(int(v) for v in rng.choice(c, size=int(rng.integers(5, len(c))), replace=False)))
+        go('idl-missing-configuration', idl=list(c) + [c[-1] + 3 * stp], must_raise=True)
+        if kind == 'fourquark':
+            V = F.FOURQUARK_VERTICES
+            one = str(rng.choice(V))
+            go('vertex-single', [one], default=False)
+            two = [V[i] for i in rng.permutation(len(V))[:2]]
+            go('vertices-pair', two, default=False)
+            go('vertices-pair-reversed', two[::-1], default=False)
+            many_ = [V[i] for i in rng.permutation(len(V))[:int(rng.integers(3, 7))]]
+            go('vertices-ordered-subset', many_, default=False)
+            go('vertices-tensor-pair', ['TTtilde', 'TT'] if rng.random() < 0.5 else ['TT', 'TTtilde'], default=False)
+            if rng.random() < 0.5:
+                go('vertices-all-permuted', [V[i] for i in rng.permutation(len(V))], default=False)
+            go('default-after-explicit')
+            lst = list(two)
+            for rep_ in (1, 2):
+                LIST.mode = 'sorted'
+                res, ok = lib_call(ctx, fmt + ':list-object-reused', base_what, lambda: fn(d, S.stem, S.ens, vertices=lst))
+                ctx.count('judged:%s:list-object-reused' % fmt)
+                if ok:
+                    judge_npr(S, two)(ctx, fmt + ':list-object-reused', res, True, dict(base_what, call=rep_))
+            if lst != two:
+                ctx.count('arg-modified-in-place:%s:vertices' % fmt)
+            for bad in ['vertex-not-a-lorentz-scalar', 'vertex-unknown', 'vertex-listed-twice']:
+                if bad == 'vertex-not-a-lorentz-scalar':
+                    go(bad, ['VA', str(rng.choice(['VS', 'SA', 'PV']))], default=False, must_raise=True)
+                elif bad == 'vertex-unknown':
+                    go(bad, ['XY'], default=False, must_raise=True)
+                else:
+                    # the same vertex twice: an exception or the right numbers - never other numbers
+                    LIST.mode = 'sorted'
+                    ctx.count('judged:%s:%s' % (fmt, bad))
+                    try:
+                        res = fn(d, S.stem, S.ens, vertices=[one, one])
+                    except Exception as e:
+                        if ctx.classify_exception(e)[0] != 'library':
+                            raise
+                        ctx.count('%s:vertex-listed-twice:raises' % fmt)
+                    else:
+                        t_ = ctx.trial()
+                        judge_npr(S, [one])(t_, fmt + ':' + bad, res, True, dict(base_what, vertices=[one, one]))
+                        if not t_.violations:
+                            ctx.absorb(t_)
+                        else:
+                            # named cause: every contribution of the vertex added once per occurrence in the list
+                            S2 = NprSet.__new__(NprSet)
+                            S2.__dict__.update(S.__dict__)
+                            S2.__dict__['_cache'] = {}
+                            S2.vals = {cc: {lab: 2 * v for lab, v in dd.items()} for cc, dd in S.vals.items()}
+                            t2 = ctx.trial()
+                            judge_npr(S2, [one])(t2, 'x', res, True, {})
+                            if not t2.violations:
+                                ctx.ev()
+                                ctx.violation(fmt + ':vertex-listed-twice:numbers-doubled', {'vertices': [one, one], 'first_difference': t_.violations[0]})
+                            else:
+                                ctx.absorb(t_)
+        if returned:
+            ctx.nontrivial.add(S.digest())
+        ctx.sample({'format': fmt, 'shape': S.shape, 'configurations': S.cfgs[:3] + ['...', S.cfgs[-1]], 'reads_returned': returned})
+
+
 def plan(tier):
-    m = 1 if tier == 'quick' else 10
+    m = 1 if tier == 'quick' else 8
     h = len(HARD_FMTS)
     return [('rwms', 75 * m), ('msdat_energy', 40 * m), ('msdat_t0', 36 * m), ('msdat_qtop', 40 * m), ('gfms', 40 * m), ('ms5', 40 * m),
             ('sfcf_o', 32 * m), ('sfcf_c', 40 * m), ('sfcf_a', 40 * m), ('hadrons', 40 * m),
-            ('options', 14 * len(OPTION_KINDS) * m), ('history', 6 * h * m), ('hard', 18 * h * m), ('scale', 20 * h * m),
-            ('spectators', 20 * h * m), ('many', 2 * h * m)]
+            ('options', 13 * len(OPTION_KINDS) * m), ('history', 5 * h * m), ('hard', 16 * h * m), ('scale', 17 * h * m),
+            ('spectators', 17 * h * m), ('many', 2 * h * m),
+            ('distil', 50 * m), ('npr_externalleg', 36 * m), ('npr_bilinear', 36 * m), ('npr_fourquark', 50 * m)]
 
 
 def run_case(ctx, kind, idx, rng):
@@ -2601,3 +2997,7 @@ def _run_case(ctx, kind, idx, rng):
         case_spectators(ctx, rng, HARD_FMTS[idx % len(HARD_FMTS)])
     elif kind == 'many':
         case_many(ctx, rng, HARD_FMTS[idx % len(HARD_FMTS)], which=['replicas', 'configurations'][(idx // len(HARD_FMTS)) % 2])
+    elif kind == 'distil':
+        case_distil(ctx, rng)
+    elif kind.startswith('npr_'):
+        case_npr(ctx, rng, kind[4:])
